@@ -24,6 +24,11 @@ def run(R):
         # crypt_ra: the realloc and the KDF's requests
         g = ["RASET 0 null", "FAULT 1", "RA 0 %s %s" % (hx(ph), hx(st)), "RA 0 %s %s" % (hx(ph), hx(st)), "RAFREE 0"]
         groups.append(g)
+        # the same from a caller-owned block that is too small (or has a negative recorded size): fail the grow request twice
+        # in a row, then let it succeed (seeded/C15: the pair must stay truthful across the failures)
+        for mode in (["small 64", "small 1", "neg 5", "small 32767"] if not quick else [R.rng.choice(["small 64", "small 1", "neg 5", "small 32767"])]):
+            ra = "RA 0 %s %s" % (hx(ph), hx(st))
+            groups.append(["RASET 0 " + mode, "FAULT 1", ra, "FAULT 1", ra, ra, "RAFREE 0"])
     ops, il, ml = R.run_pair_sharded(groups, nshards=8, wraps=WRAPS)
     def proj(op, a, b):
         if op.startswith("CF "):
@@ -41,8 +46,20 @@ def run(R):
     dist = R.cov["distribution"]
     nreq = {}
     prev_fault = None
+    cur_size = None      # what the caller's *size says before the call
     for i, (op, line) in enumerate(zip(ops, il)):
         if op.startswith("FAULT"): prev_fault = int(op.split(" ")[1]); continue
+        if op.startswith("RASET"):
+            t = op.split(" "); cur_size = {"null": 0, "valid": 32768}.get(t[2], int(t[3]) if len(t) > 3 else 0)
+            if t[2] == "neg": cur_size = -int(t[3])
+            if t[2] == "big": cur_size = 32768 + int(t[3])
+            continue
+        if op.startswith("RA "):
+            f0 = fields(line)
+            if f0.get("ret") == "NULL" and f0.get("errno") == "ENOMEM" and cur_size is not None and f0.get("size") != str(cur_size):
+                bad.append((op + " with the allocation failing", "crypt_ra failed with ENOMEM but changed *size from %d to %s: the pair no longer describes the caller's block"
+                            % (cur_size, f0.get("size")), line))
+            if f0.get("size", "").lstrip("-").isdigit(): cur_size = int(f0["size"])
         if not op.startswith(("CF ", "RA ")): continue
         f = fields(line)
         fired = f.get("fired") == "1"
@@ -62,7 +79,7 @@ def run(R):
             elif op.startswith("CF ") and f.get("wz") == "0": why = "scratch memory not erased after the failure"
             if why: bad.append((op + " with request %d failing" % k, why, line))
             # the next call on the same objects behaves normally
-            nxt = il[i + 1] if i + 1 < len(il) else None
+            nxt = il[i + 1] if i + 1 < len(il) and not ops[i + 1].startswith(("FAULT", "RAFREE", "RASET")) else None   # (a further injected fault is a failing call again)
             base = [l for o, l in zip(ops, il) if o == op and fields(l).get("fired") == "0"]
             if nxt is not None and base and fields(nxt).get("out") != fields(base[0]).get("out"):
                 bad.append((op, "the call following a failed one does not give the fault-free answer", nxt))
